@@ -283,6 +283,7 @@ class Lattice(keras.layers.Layer):
     """
     # pyformat: enable
     utils.verify_units(units)
+    utils.verify_num_projection_iterations(num_projection_iterations)
     lattice_lib.verify_hyperparameters(
         lattice_sizes=lattice_sizes,
         monotonicities=monotonicities,
@@ -859,6 +860,8 @@ class LatticeConstraints(keras.constraints.Constraint):
     Raises:
       ValueError: If weights to project don't correspond to `lattice_sizes`.
     """
+    utils.verify_num_projection_iterations(num_projection_iterations)
+
     # Same meaning as in `Lattice`: a single constraint can be given as one
     # tuple instead of an iterable of tuples.
     def as_list(constraints):
